@@ -670,6 +670,20 @@ impl Node {
             )));
         }
 
+        // the quote(s) we issued must be for the very data that is being stored,
+        // otherwise one payment could be presented again and again for other data
+        let quoted_content = address.as_xorname().unwrap_or_default();
+        if payment
+            .quotes_by_peer(&self_peer_id)
+            .iter()
+            .any(|quote| quote.content != quoted_content)
+        {
+            warn!("Payment quote was not issued for record {pretty_key}");
+            return Err(Error::InvalidRequest(format!(
+                "Payment quote was not issued for record {pretty_key}"
+            )));
+        }
+
         let owned_payment_quotes = payment
             .quotes_by_peer(&self_peer_id)
             .iter()
